@@ -21,6 +21,8 @@ PROPS["C13"] = dict(
         # f5_witness is only ever replayed (known/C13/F5.json); it has no search budget
         run("f5-witness", "c13_rc", "f5_witness", "rc", None, None),
         run("threads", "c13_rc", "log_threads", "rc", dict(procs=3, cases=600), dict(procs=6, cases=6000), deterministic=False),
+        # the same sequential programs under the TSan build: no quarantine, so freed spans/records are reused at once
+        run("program-tsan", "c13_tsan", "log_program", "rc", dict(procs=2, cases=500), dict(procs=4, cases=8000), replay_bin="c13_tsan"),
         run("threads-tsan", "c13_tsan", "log_threads", "rc", dict(procs=2, cases=250), dict(procs=4, cases=4000), deterministic=False, replay_bin="c13_tsan"),
     ],
 )
